@@ -6,7 +6,13 @@
   `w ᵥ* J : κ → ℝ` (i.e. `Jᵀ w`).  All index types are arbitrary finite types, so every
   statement specialises to `Fin m`, `Fin n`.
 -/
-import Mathlib
+import Mathlib.LinearAlgebra.Matrix.PosDef
+import Mathlib.LinearAlgebra.Matrix.NonsingularInverse
+import Mathlib.Data.Matrix.ColumnRowPartitioned
+import Mathlib.Analysis.SpecialFunctions.Exp
+import Mathlib.Analysis.SpecialFunctions.Sqrt
+import Mathlib.Order.Interval.Finset.Fin
+import Mathlib.Tactic
 
 namespace TorchJDSpec
 open Matrix
